@@ -111,6 +111,12 @@ func c10Check(cs []tcue, f int64, spare int, styled bool) string {
 		content[t] = snapItem(it)
 	}
 	in := cuesOf(sub.Items)
+	if spare == 8 && len(cs)%2 == 1 {
+		// the list has been ordered and fragmented before and was re-timed in place since
+		if p := guard(func() { prewarm(sub) }); p != "" {
+			return p
+		}
+	}
 	if p := guard(func() { sub.Fragment(time.Duration(f)) }); p != "" {
 		return p
 	}
